@@ -54,7 +54,7 @@ class Op:
     """
 
     def __init__(self, name, impl, to_model=None, compare=None, holds=None, determined=True,
-                 nontrivial=None, mode="exact", model_op=None, shrink=False, valid=None):
+                 nontrivial=None, mode="exact", model_op=None, shrink=False, valid=None, no_model=False):
         self.name = name
         self.impl = impl
         self.to_model = to_model or (lambda x: x)
@@ -66,6 +66,7 @@ class Op:
         self.model_op = model_op or name
         self.shrink = shrink      # opt-in greedy shrinking of a failing input (needs `valid` if the
         self.valid = valid        # property's quantifier restricts inputs: valid(inp) -> bool)
+        self.no_model = no_model  # the operation judges itself step by step through `holds` (harness/history.py)
 
 
 class Failure:
@@ -149,7 +150,7 @@ class Ctx:
                 if c["raise"].startswith("crash:"):
                     c["trace"] = "".join(traceback.format_exception_only(type(e), e))[-400:]
                 impl_outs.append(c)
-        model_outs = self.model_many(op.model_op, [op.to_model(i) for i in inputs])
+        model_outs = [None] * len(inputs) if op.no_model else self.model_many(op.model_op, [op.to_model(i) for i in inputs])
         st = self.per_op.setdefault(op.name, {"cases": 0, "nontrivial": 0, "impl_errors": 0, "mismatch": 0})
         new_failures = []
         for inp, io, mo in zip(inputs, impl_outs, model_outs):
@@ -199,7 +200,7 @@ class Ctx:
             raise
         except Exception as e:  # noqa: BLE001
             io = canon_exc(e)
-        mo = self.model(op.model_op, op.to_model(inp))
+        mo = None if op.no_model else self.model(op.model_op, op.to_model(inp))
         if op.holds is not None:
             msg = op.holds(self, inp, io)
             if msg:
